@@ -1,12 +1,15 @@
 #!/bin/sh
 # usage: tools/mutant.sh <Cxx> <patch.diff> [extra vcheck args]
 # Applies a patch to a scratch copy of /repo's working tree (outside /repo and
-# /verif), runs the property check against it, removes the copy.
+# /verif), runs the property check against it with a scratch output directory
+# (so evidence/, replays/ and out/ of /verif are not touched), removes both.
 id=$1; patch=$(realpath "$2"); shift 2
 d=$(mktemp -d /tmp/vmut.XXXXXX)
+o=$(mktemp -d /tmp/vout.XXXXXX)
+(cd /verif && cp -r props.json known_findings.json ledger bounded "$o"/)
 (cd /repo && git ls-files -co --exclude-standard | rsync -a --files-from=- . "$d/")
-if ! (cd "$d" && patch -p1 -s < "$patch"); then echo "PATCH-FAILED $patch"; rm -rf "$d"; exit 3; fi
-(cd /verif && ./bin/vcheck check "$id" --repo "$d" --verif /verif "$@")
+if ! (cd "$d" && patch -p1 -s < "$patch"); then echo "PATCH-FAILED $patch"; rm -rf "$d" "$o"; exit 3; fi
+(cd /verif && ./bin/vcheck check "$id" --repo "$d" --verif "$o" --no-replay "$@")
 rc=$?
-rm -rf "$d"
+rm -rf "$d" "$o"
 exit $rc
